@@ -30,7 +30,7 @@ CLAIMED = {
             "functions the canonicalised validation conditions guarding failing exits agree between ada::url and "
             "ada::url_aggregator; in each of the 19 parser states both instantiations have the same component write "
             "sites; memcmp-based in-place shortcuts are equality tests. Equality of all getters for all inputs is "
-            "value-level and not decided. Also: the two parse_ipv6 bodies are statement-for-statement identical (alpha-renamed normal form) up to the storage epilogue; the four copies of the protocol setter's state-override block agree.",
+            "value-level and not decided. Also: the two parse_ipv6 bodies are statement-for-statement identical (alpha-renamed normal form) up to the storage epilogue; the four copies of the protocol setter's state-override block agree; url::get_components() computes the aggregator's offset layout on every path; per byte value, the two parse_host bodies reach unicode::to_ascii for the same probe hosts (CFG walk with the scanners' table entries substituted).",
             "twin-skeleton comparison (A5) + per-state effect comparison over the state-machine graph (A3/A9)",
             "DESIGN.md §5 C04", "partial; skeleton canonicalisation uses a frozen correspondence of the two storages"),
     "C05": ("other",
@@ -53,7 +53,7 @@ CLAIMED = {
             "statement, arguments bound to the parameter of the same name), identical handling of the four component "
             "types by fast_test and fast_match (same acceptance condition per enumerator, same provider arguments), "
             "and identical input plumbing of test and match (type_error, failure -> no match, delimiter stripping). "
-            "Regex semantics / captured groups are not decided. Also: a default-constructed result<T> is never read as a 'was it set' flag (defect F6, fixed); the literal and regex forms of 'protocol matches a special scheme' list the same schemes; test and match strip the same delimiters the same number of times.",
+            "Regex semantics / captured groups are not decided. Also: a default-constructed result<T> is never read as a 'was it set' flag (defect F6, fixed); the literal and regex forms of 'protocol matches a special scheme' list the same schemes; test and match strip the same delimiters the same number of times; on the dictionary path no field of the process() result is stripped again; the special-scheme lists equal the Standard's six schemes.",
             "slot-consistency (A6) and twin-skeleton (A5) rules over the explicit std_regex_provider instantiation",
             "DESIGN.md §5 C14", "partial"),
     "C15": ("other",
@@ -61,7 +61,7 @@ CLAIMED = {
             "symbolically from the shortcut loops and char_class_table) are subsets of the bytes the parser-based slow "
             "path leaves unchanged, the hostname shortcut is dominated by !is_ipv4, the protocol canonicaliser's byte "
             "classes equal the Standard's, and every component flows through its own field / process_N / "
-            "canonicalize_N / component slot. Equality with the parser-based definition for every value is not decided. Also: each canonicaliser scans and encodes with the one percent-encode set of its component.",
+            "canonicalize_N / component slot. Equality with the parser-based definition for every value is not decided. Also: each canonicaliser scans and encodes with the one percent-encode set of its component; a scheme's default port is compared only where 0 is told apart; ada::parse inside a canonicaliser receives only the literal dummy URL (the value enters through a setter = state override, or the component's encoder) and the canonicalisers the Standard routes through the basic URL parser remove tab/newline; 'protocol matches a special scheme' enumerates exactly the special schemes.",
             "byte-set semantics + must-dataflow + slot consistency",
             "DESIGN.md §5 C15", "partial"),
     "C07": ("other",
@@ -70,7 +70,7 @@ CLAIMED = {
             "known omitted or recomputed; optional offsets are shifted only under a `!= omitted` fact; offsets behind "
             "a buffer edit position are updated; members are owning value types with compiler-generated copy/move; "
             "only the frozen friends can write buffer/components. Whether validate() accepts every reachable object "
-            "(values of deltas) is not decided. Also byte accounting: every acyclic path of the 20 in-place editors is replayed symbolically and every offset it writes — and every delimiter it inserts — must end where the inserts/erases put that boundary.",
+            "(values of deltas) is not decided. Also byte accounting: every acyclic path of the 20 in-place editors is replayed symbolically and every offset not known omitted (written or not) — and every delimiter it inserts — must end where the inserts/erases put that boundary; free helpers taking the components record are simulated in place.",
             "typestate dataflow over editor CFGs with callee summaries + record/friend queries",
             "DESIGN.md §5 C07", "partial: shape of the editors, not the values"),
     "C13": ("other",
@@ -88,7 +88,7 @@ CLAIMED = {
             "the default-port elision exist and agree in all four copies of parse_scheme<true>; set_host_or_hostname "
             "refusals are present and identical in both types; a port is stored only behind the default-port test / base "
             "copy / snapshot restore; every stored scheme was lower-cased or matched against the lower-case list. The "
-            "invariants of all reachable objects (values) are not decided. Also: no refusal test in the scheme/host/port setters is statically dead.",
+            "invariants of all reachable objects (values) are not decided. Also: no refusal test in the scheme/host/port setters is statically dead; has_opaque_path is set to true only in the parser's opaque path state and otherwise copied from another record or cleared.",
             "typestate (guard-before-mutation) + twin-skeleton agreement + who-writes queries + must-dataflow",
             "DESIGN.md §5 C19", "partial"),
     "C02": ("other",
@@ -110,7 +110,7 @@ CLAIMED = {
             "masked, reject-only and applied identically by both URL types; development-check-only statements are "
             "effect-free and no statement is release-only; the amalgamated distribution compiles identical bodies. "
             "Equality of outputs over all inputs, soundness of the IPv6 prefilter's rejections, and absence of firing "
-            "assertions are not decided. Also: the asserted offset-consistency predicate rejects only decreasing chains; the AVX-512 IPv6 prefilter's thresholds are no tighter than the IPv6 grammar.",
+            "assertions are not decided. Also: the asserted offset-consistency predicate rejects only decreasing chains; the AVX-512 IPv6 prefilter's thresholds are no tighter than the IPv6 grammar; an assertion about a string prefix/suffix is implied by the code in front of it.",
             "exact per-lane evaluation of vector kernels from AST facts + cross-configuration differencing of per-function "
             "facts + must-dataflow of range facts + effect queries",
             "DESIGN.md §5 C18", "partial"),
